@@ -1,3 +1,4 @@
+@classmethod
 def spec(cls, support, loc, scale):
     support, loc, scale = _astensorsfloat(support, loc, scale)
     return 0.5 * (1 + torch.special.erf((support - loc) / (scale * math.sqrt(2))))
